@@ -413,6 +413,7 @@ func (vc *VC) run() {
 		}
 		// the entry snapshot sees the same assumptions
 		vc.entry.pc = append([]string(nil), st.pc...)
+		vc.entry.pcG = append([]bool(nil), st.pcG...)
 	}
 	vc.vacuity(st, "requires", fd.Pos())
 	vc.retStack = append(vc.retStack, fr)
@@ -489,9 +490,7 @@ func (vc *VC) checkPosts(st *State, rets []*Value, pos token.Pos, entryNames map
 // checkFrame: every heap component that differs from its entry value must be covered by the modifies
 // clause; objects allocated during the call are exempt.
 func (vc *VC) checkFrame(st *State, pos token.Pos, entryNames map[string]*Value) {
-	c := vc.contract
-	sc := &SpecScope{cur: vc.entry, old: vc.entry, names: entryNames, pkg: vc.pkg, where: vc.fname + " modifies"}
-	targets, whole, _ := vc.resolveMods(sc, c)
+	whole, goals := vc.frameGoals(st, nil)
 	if whole {
 		return
 	}
@@ -499,15 +498,37 @@ func (vc *VC) checkFrame(st *State, pos token.Pos, entryNames map[string]*Value)
 		vc.oblige(st, "frame", "heap", "the whole heap may have changed (call without contract) but modifies does not say `heap`", pos, "false")
 		return
 	}
-	allowed := map[string][]string{}
-	for _, t := range targets {
-		allowed[t.comp] = append(allowed[t.comp], t.idx)
+	for _, comp := range sortedKeys(goals) {
+		vc.oblige(st, "frame", mangle(comp), "modifies: "+comp+" changed only where allowed", pos, goals[comp])
 	}
-	comps := sortedKeys(st.heap)
-	for _, comp := range comps {
+}
+
+// frameGoals: for every heap component of st that differs from its entry value (restricted to `only` when
+// non-nil), the statement that cells of objects allocated at function entry and not named by the modifies
+// clause are unchanged.
+func (vc *VC) frameGoals(st *State, only map[string]bool) (whole bool, goals map[string]string) {
+	c := vc.contract
+	goals = map[string]string{}
+	if vc.frameTargets == nil {
+		sc := &SpecScope{cur: vc.entry, old: vc.entry, names: vc.entryVals, pkg: vc.pkg, where: vc.fname + " modifies"}
+		targets, wh, _ := vc.resolveMods(sc, c)
+		vc.frameWhole = wh
+		vc.frameTargets = map[string][]string{}
+		for _, t := range targets {
+			vc.frameTargets[t.comp] = append(vc.frameTargets[t.comp], t.idx)
+		}
+	}
+	if vc.frameWhole {
+		return true, goals
+	}
+	allowed := vc.frameTargets
+	for _, comp := range sortedKeys(st.heap) {
+		if only != nil && !only[comp] {
+			continue
+		}
 		cur := st.heap[comp]
 		init := vc.initialSymEpoch(comp, 0)
-		if cur == init {
+		if cur == init || strings.HasPrefix(comp, "*") {
 			continue
 		}
 		srt := vc.compSort[comp]
@@ -515,12 +536,10 @@ func (vc *VC) checkFrame(st *State, pos token.Pos, entryNames map[string]*Value)
 		if strings.HasPrefix(comp, "global:") {
 			lvl = 0
 		}
-		if strings.HasPrefix(comp, "*") {
-			continue
-		}
+		vc.declare(init, srt)
 		var goal string
 		switch {
-		case lvl == 0 || (strings.HasPrefix(comp, "global:")):
+		case lvl == 0:
 			if _, ok := allowed[comp]; ok {
 				continue
 			}
@@ -533,13 +552,14 @@ func (vc *VC) checkFrame(st *State, pos token.Pos, entryNames map[string]*Value)
 			}
 			cond := smtAnd(append([]string{sel("Alloc0", bn)}, ex...)...)
 			if lvl == 2 {
-				goal = "(forall ((" + bn + " Int) (i!f Int)) (=> " + cond + " (= (select " + cur + " (pr " + bn + " i!f)) (select " + init + " (pr " + bn + " i!f)))))"
+				goal = "(forall ((" + bn + " Int) (i!f Int)) (! (=> " + cond + " (= (select " + cur + " (pr " + bn + " i!f)) (select " + init + " (pr " + bn + " i!f)))) :pattern ((select " + cur + " (pr " + bn + " i!f))) :qid frame))"
 			} else {
-				goal = "(forall ((" + bn + " Int)) (=> " + cond + " (= (select " + cur + " " + bn + ") (select " + init + " " + bn + "))))"
+				goal = "(forall ((" + bn + " Int)) (! (=> " + cond + " (= (select " + cur + " " + bn + ") (select " + init + " " + bn + "))) :pattern ((select " + cur + " " + bn + ")) :qid frame))"
 			}
 		}
-		vc.oblige(st, "frame", mangle(comp), "modifies: "+comp+" changed only where allowed", pos, goal)
+		goals[comp] = goal
 	}
+	return false, goals
 }
 
 func (vc *VC) initialSymEpoch(comp string, epoch int) string {
